@@ -1,7 +1,7 @@
 (* Soundness of the equivalence checker Model/PegEquiv.v against the interpreter Model/Peg.v
    (memoization off): if every pair of R passes its local check (or is semantically related by
    hypothesis), the two grammars give related outcomes on every input, for every oracle. *)
-From TxV Require Import Core.Base Model.PegSyntax Model.Peg Model.PegEquiv.
+From TxV Require Import Core.Base Model.PegSyntax Model.Peg Proofs.PegProofs Proofs.PegMemo Model.PegEquiv.
 
 (* ---------------------------------------------------------------- values *)
 Definition tt (r : res) : Prop := truthy r = true /\ flatten r <> [].
@@ -1286,3 +1286,55 @@ Lemma witness_different :
   accepts (run g_plain cfg0 no_orc false 50 [97; 121]%N) = false /\
   accepts (run g_other cfg0 no_orc false 50 [97; 121]%N) = true.
 Proof. vm_compute. repeat split. discriminate. Qed.
+
+(* Model: '[' 'x' (',' 'x')* ']'   against   '[' 'x'+[','] ']'  (segment form), and
+   Model: 'x' (',' 'x')*           against   'x'+[',']          (whole-node form) *)
+Definition g_sep1 : grammar :=
+  mkGrammar [mk KSeq [1; 8] true; mk KSeq [2; 3; 4; 7] true; mk (KStr [91]%N None) [] false; mk (KStr [120]%N None) [] false;
+             mk KStar [5] false; mk KSeq [6; 3] false; mk (KStr [44]%N None) [] false; mk (KStr [93]%N None) [] false;
+             mk KEOF [] false] 0 None.
+Definition g_sep2 : grammar :=
+  mkGrammar [mk KSeq [1; 7] true; mk KSeq [2; 3; 6] true; mk (KStr [91]%N None) [] false;
+             mkNode KPlus [4] (Some 5) false [] true false None None; mk (KStr [120]%N None) [] false;
+             mk (KStr [44]%N None) [] false; mk (KStr [93]%N None) [] false; mk KEOF [] false] 0 None.
+Definition g_sep3 : grammar :=
+  mkGrammar [mk KSeq [1; 6] true; mk KSeq [2; 3] true; mk (KStr [120]%N None) [] false;
+             mk KStar [4] false; mk KSeq [5; 2] false; mk (KStr [44]%N None) [] false; mk KEOF [] false] 0 None.
+Definition g_sep4 : grammar :=
+  mkGrammar [mk KSeq [1; 4] true; mkNode KPlus [2] (Some 3) false [] true false None None; mk (KStr [120]%N None) [] false;
+             mk (KStr [44]%N None) [] false; mk KEOF [] false] 0 None.
+
+Lemma witness_sep :
+  peg_equiv_diffs [] [] g_sep1 g_sep2 = [] /\ peg_equiv_diffs [] [] g_sep3 g_sep4 = [] /\
+  accepts (run g_sep1 cfg0 no_orc false 60 [91; 120; 44; 32; 120; 93]%N) = true /\
+  accepts (run g_sep2 cfg0 no_orc false 60 [91; 120; 44; 32; 120; 93]%N) = true /\
+  accepts (run g_sep1 cfg0 no_orc false 60 [91; 120; 44; 93]%N) = false /\
+  accepts (run g_sep2 cfg0 no_orc false 60 [91; 120; 44; 93]%N) = false /\
+  accepts (run g_sep3 cfg0 no_orc false 60 [120; 44; 120; 44; 120]%N) = true /\
+  accepts (run g_sep4 cfg0 no_orc false 60 [120; 44; 120; 44; 120]%N) = true.
+Proof. vm_compute. repeat split. Qed.
+
+(* ---------------------------------------------------------------- memoization on (through C19's theorem)
+   For grammars in the class of Proofs/PegMemo.v (ctx_constant: no rule-level ws/skipws, no eolterm, no
+   unordered group, no comment model) the memoized interpreter returns what the un-memoized one returns, so
+   the checker is sound for memoization=True as well. *)
+Corollary diffs_sound_memo ne seeds g1 g2 :
+  ctx_constant g1 = true -> ctx_constant g2 = true ->
+  peg_equiv_diffs ne seeds g1 g2 = [] ->
+  forall input orc cfg f1 f2, orc_nonempty ne orc ->
+  not_aborted (run g1 cfg orc false f1 input) -> not_aborted (run g2 cfg orc false f2 input) ->
+  PegEquiv.accepts (run g1 cfg orc true f1 input) = PegEquiv.accepts (run g2 cfg orc true f2 input)
+  /\ (forall p, run g1 cfg orc true f1 input = SyntaxErr p <-> run g2 cfg orc true f2 input = SyntaxErr p).
+Proof.
+  intros C1 C2 H input orc cfg f1 f2 Hne N1 N2.
+  rewrite (memo_safe g1 input orc C1 cfg f1 N1), (memo_safe g2 input orc C2 cfg f2 N2).
+  apply (diffs_sound_accepts ne seeds g1 g2 H input orc cfg f1 f2 Hne).
+  - intro E. rewrite E in N1. exact N1.
+  - intro E. rewrite E in N2. exact N2.
+Qed.
+
+Lemma witness_memo :
+  ctx_constant g_sep1 = true /\ ctx_constant g_sep2 = true /\
+  PegEquiv.accepts (run g_sep1 cfg0 no_orc true 60 [91; 120; 44; 32; 120; 93]%N) = true /\
+  PegEquiv.accepts (run g_sep2 cfg0 no_orc true 60 [91; 120; 44; 32; 120; 93]%N) = true.
+Proof. vm_compute. repeat split. Qed.
